@@ -11,11 +11,16 @@ PROP = dict(
         "MM.C23.C23_bad_cmd",
         "MM.C23.C23_bad_atyp",
         "MM.C23.C23_truncated",
+        "MM.C23.C23_render_injective",
+        "MM.C23.C23_dial_string_injective",
+        "MM.C23.C23_dialer_parses_ip",
+        "MM.C23.C23_dialer_parses_domain",
     ],
     spec=True,
     rule="op = one client byte stream run through a real socks5.Handler over a scripted connection with a recording dialer / UDP / ICMP back-end; "
          "streams = every prefix of valid greeting+request messages (IPv4, IPv6 incl. all zero-run shapes and v4-mapped, domains incl. colons and non-UTF8; "
-         "commands 0,1,2,3,4,5,255), unsupported address types/versions, RFC 1929 exchanges, random and mutated streams up to 300 bytes; "
+         "commands 0,1,2,3,4,5,255), unsupported address types/versions, RFC 1929 exchanges, random and mutated streams up to 300 bytes; relay phase (client bytes sent after the success reply / destination bytes, 0 B - 100 kB, must arrive unchanged on the other side); "
+         "net.IP.String on every pattern of zero groups and on (nearly) IPv4-mapped addresses, net.JoinHostPort+net.SplitHostPort on bracket/colon-laden hosts; "
          "non-trivial = the handler wrote at least one message",
     nontrivial=lambda op, out: out.startswith("r ") and not out.startswith("r - "),
     trusted_base=[
@@ -25,13 +30,14 @@ PROP = dict(
     assumptions=[
         "the dialer's connection reports a *net.TCPAddr local address with a nil, 4-byte or 16-byte IP (hypothesis of C23_reply_wf)",
         "the race between the client-disconnect monitor and a failing dial is an environment parameter (Env.cancelled); T-diff accepts either outcome",
-        "relay phase after a successful CONNECT and the UDP/ICMP data paths are outside this property",
+        "the relay phase after a successful CONNECT is checked by the differential run and the spec (bytes unchanged in both directions), not by a theorem; the UDP/ICMP data paths are outside this property",
+        "a colon-free domain of the shape [x] is passed on verbatim by the handler but loses its brackets in net.SplitHostPort inside the dialer (C23_dialer_parses_domain excludes brackets; example in Props/C23.lean)",
     ],
     manifest=dict(
         category="proof",
         text="Lean theorems over a function from the client byte stream to (messages written, action) modelling socks5.Handler.Handle: all written messages well formed, "
              "CONNECT dials exactly JoinHostPort(render(addr), port) of the encoded address, unsupported command => reply 0x07, unsupported address type => reply 0x08, "
-             "every strict prefix of a valid stream => no action; model tied to the code by a differential run of the real handler on every prefix of valid requests and random streams",
+             "every strict prefix of a valid stream => no action; the address text is injective (IPv4, RFC 5952 IPv6 with every zero-run shape, IPv4-mapped = its IPv4) and JoinHostPort is injective, so the dial string determines what was asked; SplitHostPort(JoinHostPort(render ip, port)) gives it back; model tied to the code by a differential run of the real handler on every prefix of valid requests and random streams",
         design_ref="DESIGN.md section 5 C23",
         note="Lean kernel; model of ReadFull/IP.String/JoinHostPort; T-diff generator coverage",
         technique="Lean 4 proof (case analysis over the parser) + differential correspondence harness",
